@@ -18,7 +18,8 @@ fn jv(ctx: &Ctx, v: &[BlsScalar]) -> Value {
 pub fn with_paths(ctx: &mut Ctx, name: &str, all: bool, mut f: impl FnMut(&mut Ctx) -> Value) {
     #[cfg(feature = "sym")]
     if !ctx.concrete {
-        let (res, complete) = dusk_bls12_381::sym::explore(256, all, || f(ctx));
+        let budget = std::env::var("VERIF_MAX_PATHS").ok().and_then(|s| s.parse().ok()).unwrap_or(256);
+        let (res, complete) = dusk_bls12_381::sym::explore(budget, all, || f(ctx));
         let mut paths = vec![];
         for (taken, path, r, _ev) in res {
             let (result, panic) = match r {
@@ -241,7 +242,7 @@ pub fn run_kzg(ctx: &mut Ctx, args: &[String]) {
             let z = ctx.var("z");
             let v = ctx.var("v");
             let pp = setup(ctx, deg).expect("setup");
-            with_paths(ctx, "open", false, |ctx| {
+            with_paths(ctx, "open", true, |ctx| {
                 let (ck, ok) = hk::pp_trim(&pp, deg).expect("trim");
                 let w = hk::kzg_aggregate_witness(&polys, &z, &v);
                 let wc = hk::kzg_commit(&ck, &w).expect("commit witness");
